@@ -10,7 +10,8 @@ import numpy as np
 from hypothesis import strategies as st
 
 import hdc.algo  # noqa: F401
-from harness import gens, twins
+from harness import smooth  # noqa: E402
+from harness import gens, refs, twins
 from harness.core import Violation
 from harness.util import call, req, fmt
 
@@ -113,6 +114,44 @@ def _nd(case):
     return (base + 0.5, base) if kind == "frac" else (base + 65536.0, base)
 
 
+def _selection_tie(name, case, res, y_eff, valid_eff, grid, p, kind):
+    """Compiled code and interpreter evaluate the same criterion with different rounding (fused multiply-add, Numba's arange): where two
+    candidates are tied to within that noise they may select different ones. That is not a disagreement about what the source says
+    (C04-C06 speak of 'floating-point ties'), so such inputs are counted and discarded; an untied mismatch stays a violation."""
+    got, tw = res
+    lg, lt = float(np.asarray(got[1]).ravel()[0]), float(np.asarray(tw[1]).ravel()[0])
+    if not (lg > 0 and lt > 0) or abs(lg - lt) <= 1e-9 * max(lg, lt):
+        return res
+    from props import c04
+
+    grid = np.asarray(grid, dtype="float64")
+    yv, vv = np.asarray(y_eff, dtype="float64"), np.asarray(valid_eff, dtype=bool)
+    if kind == "vcurve":
+        cand, status = c04.near_min_set(np.where(vv, yv, 0.0), vv, grid, p)
+        pts = (grid[:-1] + grid[1:]) / 2
+    elif kind == "gcv":
+        with np.errstate(all="ignore"):
+            sa, _ = refs.gcv_scores(np.where(vv, yv, 0.0), vv.astype(float), grid, solver=refs.banded_solve)
+            sb, _ = refs.gcv_scores(np.where(vv, yv, 0.0), vv.astype(float), grid, solver=refs.lu_solve)
+        status, cand, pts = None, set(), grid
+        if not (np.isfinite(sa).all() and np.isfinite(sb).all()):
+            status = "nonfinite"
+        else:
+            smin = float(sa.min())
+            tol = 1e-7 * abs(smin) + 50 * float(np.max(np.abs(sa - sb))) + 1e-300
+            if tol > 0.05 * float(sa.max() - smin):
+                status = "unresolvable"
+            cand = {int(i) for i in np.nonzero(sa <= smin + tol)[0]}
+    else:  # robust GCV: no closed criterion to consult; identical bands mean the fit does not depend on the candidate
+        if np.array_equal(np.asarray(got[0]), np.asarray(tw[0])):
+            raise Fragile("selection_tie_identical_bands")
+        return res
+    ks = [int(np.argmin(np.abs(pts - math.log10(v)))) for v in (lg, lt)]
+    if status or all(k in cand for k in ks):
+        raise Fragile("selection_tie_between_compiled_and_interpreted")
+    return res
+
+
 def r_smoother(name):
     def run(case):
         gufunc = name.split(".")[1] in ("ws2dgu", "ws2dpgu", "ws2doptv", "ws2doptvp", "ws2doptvplc", "ws2dwcv", "ws2dwcvp")
@@ -124,17 +163,21 @@ def r_smoother(name):
             return gu(name, (y, lam, nd), [(n, "int16")])
         if name == "ws2dpgu.ws2dpgu":
             return gu(name, (y, lam, nd, p), [(n, "int16")])
+        vv = np.array(case["valid"], dtype=bool)
         if name == "ws2doptv.ws2doptv":
-            return gu(name, (y, nd, SR), [(n, "int16"), (1, "f8")])
+            return _selection_tie(name, case, gu(name, (y, nd, SR), [(n, "int16"), (1, "f8")]), y, vv, SR, None, "vcurve")
         if name == "ws2doptvp.ws2doptvp":
-            return gu(name, (y, nd, p, SR), [(n, "int16"), (1, "f8")])
+            return _selection_tie(name, case, gu(name, (y, nd, p, SR), [(n, "int16"), (1, "f8")]), y, vv, SR, p, "vcurve")
         if name == "ws2doptvplc.ws2doptvplc":
             yi = _series(case, nodata=ndi).astype("int16")  # int16 cells: the missing ones hold what nd truncates / wraps to
-            return gu(name, (yi, nd, p, case["lc"]), [(n, "int16"), (1, "f8")], twin_ins=(_widen(yi), nd, p, case["lc"]))
+            v_eff = vv if nd == -1.0 else np.ones(n, dtype=bool)  # an off-domain nodata marks no int16 cell: every cell is an observation
+            grid = smooth.LC_GRID_HI if case["lc"] > 0.5 else smooth.LC_GRID_LO
+            return _selection_tie(name, case, gu(name, (yi, nd, p, case["lc"]), [(n, "int16"), (1, "f8")], twin_ins=(_widen(yi), nd, p, case["lc"])),
+                                  yi, v_eff, grid, p, "vcurve")
         if name == "ws2dwcv.ws2dwcv":
-            return gu(name, (y, nd, SR, case["robust"]), [(n, "int16"), (1, "f8")])
+            return _selection_tie(name, case, gu(name, (y, nd, SR, case["robust"]), [(n, "int16"), (1, "f8")]), y, vv, SR, None, "robust" if case["robust"] else "gcv")
         if name == "ws2dwcvp.ws2dwcvp":
-            return gu(name, (y, nd, p, SR, case["robust"]), [(n, "int16"), (1, "f8")])
+            return _selection_tie(name, case, gu(name, (y, nd, p, SR, case["robust"]), [(n, "int16"), (1, "f8")]), y, vv, SR, p, "robust" if case["robust"] else "gcv")
         w = np.array(case["valid"], dtype="float64")
         yz = np.where(w > 0, y, 0.0)
         if name == "ws2d.ws2d":
@@ -385,6 +428,12 @@ def sub_program(case):
         return "interpreter_overflow"
     except Fragile as e:
         return str(e)
+    except ValueError as e:
+        if "math domain error" in str(e):
+            # CPython's math.log(0) raises where compiled code yields -inf (an exactly interpolating fit): the interpreter cannot
+            # express what the source computes there - outside "in-domain inputs", counted
+            return "interpreter_math_domain_error"
+        raise
     except KeyError as e:
         if e.args and e.args[0] == name:
             # a program this check has no input generator for (e.g. a helper added later): counted in the evidence, not judged
